@@ -7,7 +7,7 @@ from ..common import plain, weighted
 
 PLAN = {
     "quick": {"shards": 8, "cases": 1500, "min_nontrivial": 6000, "budget_s": 300},
-    "thorough": {"shards": 16, "cases": 5000, "min_nontrivial": 40000, "budget_s": 1500},
+    "thorough": {"shards": 16, "cases": 25000, "min_nontrivial": 140000, "budget_s": 1500},
 }
 RULE = ("schemas built top-down to depth <= 4 with every combination of schema-level (absent, automatic, named prefix, "
         "disabled) and field-level (absent, automatic, named, disabled) environment settings over scalar families; the "
